@@ -100,6 +100,51 @@ def run(rep):
     ok, why = common.lean_side(rep, 'C07')
     quick = rep.tier == 'quick'
     broken = B.entry_correspondence(rep, rng, 60 if quick else 1500, TOL)
+    # flip-based observables at fixed phi: dvcs._XUU, _XLU, _AC, ... versus Scalar/Obs.lean.in on the generated XS
+    import gepard as g
+    olines, ometa = [], []
+    for i in range(40 if quick else 1000):
+        fset = rng.choice(B.FORMULA_SETS)
+        m = B.random_m(rng)
+        th = B.theory(fset, m)
+        kw = B.random_kinematics(rng)
+        kw['in1polarization'] = rng.choice([-1, 1])
+        target = rng.choice(['U', 'L'] if fset in B.LP_SETS else ['U', 'T'])
+        if target != 'U':
+            kw['in2polarizationvector'] = target
+            kw['in2polarization'] = rng.choice([-1, 1])
+        if target == 'T':
+            kw['varFTn'] = rng.choice([-1, 1])
+        names = ['_XUU', '_XLU', '_XCLU', '_XCUU', '_AC', '_ALU', '_ALUI', '_ALUDVCS']
+        if target != 'U':
+            names += ['_XUD', '_TSA', '_BTSA', '_AUTI', '_AUTDVCS', '_ALTI', '_ALTBHDVCS']
+        name = rng.choice(names)
+        weighted = rng.random() < 0.2
+        p2 = g.DataPoint(**kw)
+        try:
+            if name == '_ALTI':
+                v = float(th._CBTSA(p2, weighted=weighted))
+            elif name == '_ALTBHDVCS':
+                v = float(th._CBTSA(p2, chargepar=+1, weighted=weighted))
+            else:
+                v = float(getattr(th, name)(p2, weighted=weighted))
+        except Exception as ex:
+            v = 'EXC:' + type(ex).__name__
+        k2 = p2.copy()
+        if target == 'T':
+            k2.varphi = (1 - kw['varFTn']) * math.pi / 4.
+        k2.prepare()
+        olines.append('c07.obs %s %s %d %d %s %s' % (name, fset, 'ULT'.index(target), weighted, f2hex(kw.get('in2polarization', 0)), B.tokens(k2, m)))
+        ometa.append((name, fset, target, v, kw, m))
+        rep.hist('obs', name)
+    for line, (name, fset, target, v, kw, m), o in zip(olines, ometa, common.run_driver(olines)):
+        rep.case('observable', (name, fset, line[-30:]), sample=dict(observable=name, set=fset, target=target, value=v) if name in ('_BTSA', '_ALUI') else None)
+        if isinstance(v, str) or o in ('none', 'bad-op'):
+            if not (isinstance(v, str) and o == 'none'):
+                broken.append(('obs', fset, name, v, o, kw, m))
+            continue
+        if relerr(v, hex2f(o), 1e-300) > 1e-9 and abs(v - hex2f(o)) > 1e-13:
+            broken.append(('obs', fset, name, v, hex2f(o), kw, m))
     # symmetries on the real code: routinely (small), and as failing-input search when something broke
     n_or = 40 if quick else 1500
     if broken or not ok:
